@@ -58,7 +58,7 @@ var Ops = map[string]Info{
 	"append": {Sharing, 2, true}, "append3": {Sharing, 3, true}, "append1": {Sharing, 1, true},
 	"cdr": {Sharing, 1, true}, "rest": {Sharing, 1, true}, "nthcdr": {Sharing, 1, true},
 	"last": {Sharing, 1, true}, "last1": {Sharing, 1, true}, "member": {Sharing, 1, true},
-	"alias":  {Sharing, 1, true},
+	"alias": {Sharing, 1, true},
 	// remove* : CLHS lets the result share with the argument; the property statement asks for more ("the list it returns is
 	// independent of its arguments", the only exception being tails by the language rules) and slip's remove is not
 	// documented as destructive or sharing, so the results are fresh
@@ -67,8 +67,8 @@ var Ops = map[string]Info{
 	// keyword variants: :from-end t :count 1 (the last match only), :start N :end M, remove-duplicates :from-end t
 	"remove-fe": {Fresh, 1, true}, "remove-if-fe": {Fresh, 1, true}, "remove-se": {Fresh, 1, true},
 	"remove-duplicates-fe": {Fresh, 1, true},
-	"delete-fe": {Destroy, 1, true}, "delete-se": {Destroy, 1, true},
-	"butlast":           {Fresh, 1, true}, "butlast1": {Fresh, 1, true}, "subseq": {Fresh, 1, true}, "subseq1": {Fresh, 1, true},
+	"delete-fe":            {Destroy, 1, true}, "delete-se": {Destroy, 1, true},
+	"butlast": {Fresh, 1, true}, "butlast1": {Fresh, 1, true}, "subseq": {Fresh, 1, true}, "subseq1": {Fresh, 1, true},
 	"copy-list": {Fresh, 1, true}, "copy-seq": {Fresh, 1, true}, "reverse": {Fresh, 1, true}, "mapcar": {Fresh, 1, true},
 	// cons / list called by mapcar over two lists (the caller hands the same argument vector to every call), read back
 	// through car / cadr: the elements of the first / second list up to the shorter length
@@ -81,6 +81,9 @@ var Ops = map[string]Info{
 	"rplacd": {Destroy, 2, true}, "nreverse": {Destroy, 1, true}, "sort": {Destroy, 1, true}, "stable-sort": {Destroy, 1, true},
 	"delete": {Destroy, 1, true}, "delete-if": {Destroy, 1, true}, "delete-duplicates": {Destroy, 1, true},
 	"nconc": {Extending, 2, true}, "add": {Extending, 1, true}, "add2": {Extending, 1, true},
+	// nconc whose first argument is the empty end of another list, (nconc (nthcdr <length of a> a) b): the result is b,
+	// a is not touched (the empty end is a slice into a's storage, with whatever room that storage has left)
+	"nconc-end": {Extending, 2, true},
 }
 
 // Names returns the operation names in a fixed order.
@@ -471,6 +474,10 @@ func (s *State) Plan(op Op) *Plan {
 			p.ResGroup = s.Grp[op.A]
 			p.Merge = [2]int{s.Grp[op.A], s.Grp[op.B]}
 		}
+	case "nconc-end":
+		p.N = la
+		p.Res = cp(b)
+		p.ResGroup = s.shareWith(op.B, p.Res)
 	case "nreverse":
 		p.Res = rev(a)
 		if la > 0 {
